@@ -510,7 +510,7 @@ PROPS['C18'] = {
 PROPS['C19'] = {
     'module': 'SuironVerif.Props.C19',
     'theorems': ['Suiron.C19.show_and_groups_or', 'Suiron.C19.show_and_groups_and', 'Suiron.C19.show_or_keeps_and', 'Suiron.C19.show_or_groups_or',
-                 'Suiron.C19.show_fact', 'Suiron.C19.show_rule', 'Suiron.C19.show_unify', 'Suiron.C19.integers_round_trip', 'Suiron.C19.complex_terms_round_trip', 'Suiron.C19.lists_round_trip', 'Suiron.C19.facts_round_trip'],
+                 'Suiron.C19.show_fact', 'Suiron.C19.show_rule', 'Suiron.C19.show_unify', 'Suiron.C19.integers_round_trip', 'Suiron.C19.complex_terms_round_trip', 'Suiron.C19.lists_round_trip', 'Suiron.C19.facts_round_trip', 'Suiron.C19.zero_arity_facts_round_trip'],
     'oracles': ['C19'],
     'suites': {
         'quick': parse_runs('C19', [('grammar', 6000, None), ('grammar', 6000, None), ('spellings', 2500, None), ('mutate', 4000, None)]),
@@ -582,7 +582,7 @@ LEVEL_TEXT = {
            'cases; the work on termination exposed defect D18 (exponential time on nested parentheses), repaired. The model is tied to the code by the correspondence '
            'suite (random, mutated, documented-spelling and ALL short strings through all eight entry points) and the no-panic oracle.',
     'C19': 'PARTIAL proof: the printer model is proved to parenthesise exactly the nested operators the parser would regroup and to lay out rules and unifications as '
-           'documented; parse(show v) = v is proved outright for every i64 integer and for every term built from integers, atoms that are words (also with blanks between them), variables, $_, complex terms, the empty list, lists and lists with a tail variable of such terms, nested to any depth (printer and parser sides, by induction on the nesting), for FACTS fn(T1, ..., Tn). over such terms through parse_rule and the rule printer, and reduced to make_term for the other token-level terms. The round trip for quoted atoms, floats, atoms with other characters, goals and rules with bodies is decided by the grammar stream on the '
+           'documented; parse(show v) = v is proved outright for every i64 integer and for every term built from integers, atoms that are words (also with blanks between them), variables, $_, complex terms (also without arguments: f()), the empty list, lists and lists with a tail variable of such terms, nested to any depth (printer and parser sides, by induction on the nesting), for FACTS fn(T1, ..., Tn). and fn(). over such terms through parse_rule and the rule printer, and reduced to make_term for the other token-level terms. The round trip for quoted atoms, floats, atoms with other characters, goals and rules with bodies is decided by the grammar stream on the '
            'implementation, with the model parser and printer compared on every case. Nested parenthesised groups are generated since repair D18 (former finding F2); double-quoted atoms (with separators, brackets and parentheses between the quotes) since D22-D24. Open known finding F5: an atom that needs its quotes is printed without them.',
     'C20': 'PARTIAL proof: for every token text (no blanks, none of [ ] ( ) , " \\ |: atoms, signed numbers, variables, $_) all five contexts - alone, argument, list element, '
            'infix operand, query argument - are proved to hand the text to the same make_term with the same classification flags, so they yield the same term, for every '
